@@ -65,6 +65,13 @@ def _matrix_cases(ctx, rng, count):
     items = []
     for idx in range(count):
         B, mk = gen.gen_matrix(rng, max_n=ctx.scale(9, 20), max_m=ctx.scale(7, 14))
+        if rng.random() < 0.12:
+            # nearly low rank: the residual norms fall by 2^e after r picks and must still be those of the trailing block
+            n_, m_ = rng.randint(5, ctx.scale(9, 16)), rng.randint(4, ctx.scale(7, 12))
+            r_ = rng.randint(1, min(n_, m_) - 2)
+            B = gen.gen_generic_matrix(rng, n_, r_, -4, 4) @ gen.gen_generic_matrix(rng, r_, m_, -4, 4) \
+                + gen.gen_generic_matrix(rng, n_, m_) * 2.0 ** -rng.choice([24, 30, 36, 44])
+            mk = "nearly_low_rank"
         which = rng.choice(["qr", "ccqr0", "ccqrz", "gqr0"])
         if which == "qr":
             case = OptCase(B, "qr", meta={"mk": mk})
@@ -74,6 +81,15 @@ def _matrix_cases(ctx, rng, count):
             case = OptCase(B, "ccqr", costs=np.zeros(B.shape[0]), meta={"mk": mk})
         else:
             case = OptCase(B, "gqr", gqr={}, meta={"mk": mk})
+        if which != "qr" and rng.random() < 0.25:
+            # the same matrix stored in a narrower floating type and in other units (powers of two keep it exact): half-precision
+            # snapshots of 8-bit intensities (entries ≥ 256: their squares leave the half-precision range), tiny amplitudes
+            dt = rng.choice(["float16", "float16", "float32"])
+            e = rng.choice([0, 8, 8, -13] if dt == "float16" else [0, 20, -20])
+            Bs = B * 2.0 ** e
+            if np.all(np.isfinite(Bs.astype(dt))) and np.array_equal(Bs.astype(dt).astype(float), Bs):
+                case = OptCase(Bs, case.kind, costs=case.costs, gqr=case.gqr, meta={"mk": mk, "dtype": dt})
+                ctx.count(f"basis_dtype:{dt}·2^{e}")
         items.append((idx, which, case))
     return items
 
